@@ -187,6 +187,7 @@ theorem dfstep_inv (pre : Nat → Nat) (d : DServer) (h : IncDirsExist d) (op : 
     rw [allocateConn_snd]
     exact allocate_mem d.srv si shs size rec free order e he
   | disconnect c => exact (dAbortAll_inv _ d h).1
+  | restart => intro e he; simp [dfstep, restartOp] at he
   | direct o =>
     cases o with
     | alloc si shs size rec free order =>
@@ -275,6 +276,7 @@ theorem dfstep_dinv (pre : Nat → Nat) (d : DServer) (h : DInv d) (op : FOp) (o
     | disconnect c =>
       simp only [dfstep, (dAbortAll_inv _ d h.dirs).2]
       exact (wf_foldl_abort _ d.srv h.wf).1
+    | restart => exact (fstep_inv d.srv h.wf h.wfh .restart ok).1
     | direct o =>
       cases o with
       | alloc si shs size rec free order => exact (fstep_inv d.srv h.wf h.wfh (.direct (.alloc si shs size rec free order)) ok).1
@@ -292,6 +294,7 @@ theorem dfstep_dinv (pre : Nat → Nat) (d : DServer) (h : DInv d) (op : FOp) (o
     | disconnect c =>
       simp only [dfstep, (dAbortAll_inv _ d h.dirs).2]
       exact wfh_foldl_abort _ d.srv h.wfh
+    | restart => exact (fstep_inv d.srv h.wf h.wfh .restart ok).2
     | direct o =>
       cases o with
       | alloc si shs size rec free order => exact (fstep_inv d.srv h.wf h.wfh (.direct (.alloc si shs size rec free order)) ok).2
